@@ -22,6 +22,11 @@ def mutate(text, cause, rnd):
     rule_lines = rules.split("\n")
     idx = [k for k, ln in enumerate(rule_lines) if " :" in ln]
     if cause == "none":
+        k = rnd.randrange(3)
+        if k == 0:     # a very long line (generated tables, embedded data) in the epilogue: part of the text like any other
+            return text + "// " + "0123456789abcdef" * 400 + "\nvar vhTail = 1\n"
+        if k == 1:     # ... or in the prologue
+            return text.replace("%{\n", "%{\n// " + "fedcba9876543210" * 300 + "\n", 1)
         return text
     if cause == "lexical":
         k = rnd.randrange(5)
@@ -87,12 +92,12 @@ def run(ctx, replay):
         obs_in = json.load(open(os.path.join(replay, "scenario.json")))
         todo = [(obs_in["lang"], obs_in["cause"], obs_in["opts"], open(os.path.join(replay, "input.y")).read(), obs_in["base"])]
     else:
-        r = ctx.vh(["render", "-out", out, "-seed", ctx.seed, "-corpus", conf.CORPUS, "-nrand", ctx.pick(6, 40), "-nexpr", ctx.pick(2, 10),
-                    "-nfeat", ctx.pick(2, 10), "-valued", 100])
+        r = ctx.vh(["render", "-out", out, "-seed", ctx.seed, "-corpus", conf.CORPUS, "-nrand", ctx.pick(6, 160), "-nexpr", ctx.pick(2, 40),
+                    "-nfeat", ctx.pick(2, 40), "-valued", 100])
         recs = json.load(open(os.path.join(out, "render.json")))
         rnd = random.Random(ctx.seed)
         rnd.shuffle(recs)
-        recs = recs[:ctx.pick(24, 200)]
+        recs = recs[:ctx.pick(24, 800)]
         todo = []
         for lang, cause in scen:
             for rec in recs:
